@@ -352,6 +352,50 @@ pub fn run(tier: &str) -> i32 {
         merge(&mut acc, a);
     }
 
+    // (B3) the checker's own tables are unions too (accepted operand types of the operators):
+    //      which declared result types an operator application fits must not depend on their
+    //      order - every binary operator x operand type pair (with the degenerate types `!`,
+    //      `any`, `[!]`, unions) x declared result type, under the order oracle
+    {
+        const OPS: &[&str] = &["+", "-", "*", "/", "%", "**", "<<", ">>", "&", "|", "^", "==", "!=", "<", "<=", ">", ">=", "&&", "||"];
+        const TYS: &[&str] = &["!", "any", "int", "float", "int|float", "bool", "int|bool", "string", "[int]", "[!]", "[int|float]"];
+        const RESULTS: &[&str] = &["int", "float", "bool", "string", "[int]", "[float]", "!"];
+        let n = OPS.len() * TYS.len() * TYS.len();
+        let accs = par_fold(n, Acc::default, |acc, i| {
+            let op = OPS[i / (TYS.len() * TYS.len())];
+            let a = TYS[(i / TYS.len()) % TYS.len()];
+            let b = TYS[i % TYS.len()];
+            let outcome = || {
+                let interp = Interpreter::with_stdlib();
+                RESULTS
+                    .iter()
+                    .map(|r| {
+                        let text = format!("f := (a: {a}, b: {b}) -> {r} {{ return a {op} b }}");
+                        match guard(|| Code::parse(&interp, &text)) {
+                            Ok(Ok(_)) => format!("{r}:accepted"),
+                            Ok(Err(e)) => format!("{r}:{}", core::error_kind(&e)),
+                            Err(Stop::Panic(p)) => format!("{r}:panic:{}@{}", p.short_msg(), p.file()),
+                            Err(Stop::Exhausted) => format!("{r}:exhausted"),
+                        }
+                    })
+                    .collect::<Vec<_>>()
+                    .join(" ")
+            };
+            explore(
+                acc,
+                "operator-typing",
+                &format!("{} {op} {}", a.replace('|', "/"), b.replace('|', "/")),
+                json!({"kind": "program", "stdlib": true, "text": format!("f := (a: {a}, b: {b}) -> R {{ return a {op} b }}"), "R": RESULTS}),
+                bound,
+                2000,
+                &mut || outcome(),
+            );
+        });
+        for a in accs {
+            merge(&mut acc, a);
+        }
+    }
+
     // (B2) an imported file is checked and folded in the scope of the program that imports it, and is
     //      an input: the same path imported by different programs, and by the same program after the
     //      file changed, gives each time what a first import gives (no memory of earlier parses)
